@@ -33,7 +33,7 @@ def plan(tier, seed):
 def conclude(agg):
     c = agg['counters']
     return [f'monitor counter {k} is zero' for k in ('files', 'cells_compared_tests', 'cells_compared_responses', 'cells_compared_loc', 'markers_inside', 'markers_adjacent',
-                                                     'markers_at_end', 'loc_sets', 'sa_sets', 'loc_with_clock', 'loc_without_clock', 'inverted_cells', 'multi_chain', 'loc_capture_only')
+                                                     'markers_at_end', 'loc_sets', 'sa_sets', 'loc_with_clock', 'loc_without_clock', 'inverted_cells', 'multi_chain', 'loc_capture_only', 'second_circuit_same_stilfile')
             if c.get(k, 0) == 0]
 
 
@@ -298,6 +298,7 @@ def check_case(ctx, case, idx):
         names = [name for _, name in b.s_order]
 
         def cmp(label, got, exp, skip, counter):
+            nonlocal names
             got = np.asarray(got)
             if got.shape != (len(exp), len(exp[0])):
                 ctx.violation('pattern-array-shape', f'{label}() shape {got.shape}, expected {(len(exp), len(exp[0]))} = (ports + flip-flops, patterns)', wit)
@@ -318,6 +319,22 @@ def check_case(ctx, case, idx):
         # the same object asked again (state carried between calls must not matter)
         ok = ok and cmp('tests (second call)', sf.tests(b.c), tests, skip_t, 'cells_compared_tests')
         ok = ok and cmp('responses (second call)', sf.responses(b.c), resp, set(), 'cells_compared_responses')
+        if ok and case['rseed'] % 3 == 0:
+            net2 = dict(case['net'])
+            r2 = random.Random(case['rseed'] + 1)
+            net2['io_order'] = list(case['net']['io_order'])
+            r2.shuffle(net2['io_order'])
+            net2['ffs'] = list(case['net']['ffs'])
+            r2.shuffle(net2['ffs'])
+            case2 = dict(case, net=net2)
+            b2 = G.build(net2)
+            t2, rsp2, loc2, sk2, skl2, _ = expectations(case2, b2)
+            names_save = names
+            names = [name for _, name in b2.s_order]
+            ctx.count('second_circuit_same_stilfile')
+            ok = cmp('tests (second circuit, same StilFile)', sf.tests(b2.c), t2, sk2, 'cells_compared_tests')
+            ok = ok and cmp('responses (second circuit, same StilFile)', sf.responses(b2.c), rsp2, set(), 'cells_compared_responses')
+            names = names_save
         if ok and loc is not None:
             clk = sum(1 for p in case['patterns'] if 'launch' in p and 'P' in p['launch']['_pi'] and 'P' in p['capture']['_pi'])
             ctx.count('loc_with_clock', clk)
